@@ -564,7 +564,9 @@ func deriveSub(t *rapid.T, what string, sub []ID, parent map[ID]*session.Context
 func TestHonestSetup(t *testing.T) {
 	const test = "HonestSetup"
 	vlib.Check(t, 400, func(t *rapid.T) {
-		n := rapid.SampledFrom([]int{2, 2, 3, 3, 3, 4, 4, 4, 5, 5, 5, 6, 6, 7}).Draw(t, "n")
+		// "every quorum size": mostly small quorums, and a tail of larger ones (the setup is
+		// O(n^2) cheap messages; sizes past 8 cross buffer-size classes of the per-peer code)
+		n := rapid.SampledFrom([]int{2, 2, 3, 3, 3, 4, 4, 4, 5, 5, 5, 6, 6, 7, 8, 9, 10, 11, 12, 13, 16}).Draw(t, "n")
 		regime := rapid.SampledFrom([]string{regOrdinal, regSparse, regLarge, regLarge}).Draw(t, "regime")
 		ids := drawIDs(t, n, regime)
 		api := rapid.SampledFrom([]string{"rounds", "runner"}).Draw(t, "api")
